@@ -210,6 +210,13 @@ func ParseData(data []byte) (Config, error) {
 						bidirectional = true
 					}
 
+					if analog.ChannelOffset < 0 || analog.ChannelOffset > 15 {
+						return Config{}, fmt.Errorf("[%s] %s: channel offset outside of 0-15 range: %d", name, evcodeRaw, analog.ChannelOffset)
+					}
+					if analog.ChannelOffsetNegative < 0 || analog.ChannelOffsetNegative > 15 {
+						return Config{}, fmt.Errorf("[%s] %s: negative channel offset outside of 0-15 range: %d", name, evcodeRaw, analog.ChannelOffsetNegative)
+					}
+
 					analogMappingTmp[evcode] = Analog{
 						MappingType:      mappingType,
 						CC:               CC,
@@ -221,6 +228,10 @@ func ParseData(data []byte) (Config, error) {
 						DeadzoneAtCenter: analog.DeadzoneAtCenter,
 					}
 				case AnalogPitchBend:
+					if analog.ChannelOffset < 0 || analog.ChannelOffset > 15 {
+						return Config{}, fmt.Errorf("[%s] %s: channel offset outside of 0-15 range: %d", name, evcodeRaw, analog.ChannelOffset)
+					}
+
 					analogMappingTmp[evcode] = Analog{
 						MappingType:      mappingType,
 						FlipAxis:         analog.FlipAxis,
@@ -276,14 +287,23 @@ func ParseData(data []byte) (Config, error) {
 						if *analog.NoteNegative < 0 || *analog.NoteNegative > 127 {
 							return Config{}, fmt.Errorf("[%s] %s: note value outside of 0-127 range: %d", name, evcodeRaw, *analog.NoteNegative)
 						}
-						noteNeg = byte(*analog.Note)
+						noteNeg = byte(*analog.NoteNegative)
 						bidirectional = true
+					}
+
+					if analog.ChannelOffset < 0 || analog.ChannelOffset > 15 {
+						return Config{}, fmt.Errorf("[%s] %s: channel offset outside of 0-15 range: %d", name, evcodeRaw, analog.ChannelOffset)
+					}
+					if analog.ChannelOffsetNegative < 0 || analog.ChannelOffsetNegative > 15 {
+						return Config{}, fmt.Errorf("[%s] %s: negative channel offset outside of 0-15 range: %d", name, evcodeRaw, analog.ChannelOffsetNegative)
 					}
 
 					analogMappingTmp[evcode] = Analog{
 						MappingType:      mappingType,
 						Note:             note,
 						NoteNeg:          noteNeg,
+						ChannelOffset:    byte(analog.ChannelOffset),
+						ChannelOffsetNeg: byte(analog.ChannelOffsetNegative),
 						FlipAxis:         analog.FlipAxis,
 						Bidirectional:    bidirectional,
 						DeadzoneAtCenter: analog.DeadzoneAtCenter,
